@@ -409,6 +409,16 @@ func (rt vTargetRT) RoundTrip(req *http.Request) (*http.Response, error) {
 	s.events = append(s.events, vEvent{Seq: len(s.events), T: s.now(), G: rid, Kind: "at-target", Args: []any{s.idTarget(rt.t), rid, req.URL.Path}})
 	s.mu.Unlock()
 	status := 200
+	if want := req.Header.Get("X-Verif-Body"); want != "" && !strings.HasPrefix(beh, "upgrade") {
+		// like net/http's transport, the scripted one sends the request body: it must be the client's, whole
+		var got []byte
+		if req.Body != nil {
+			got, _ = io.ReadAll(req.Body)
+		}
+		if have := strconv.Itoa(len(got)) + ":" + strconv.FormatUint(uint64(vSum(got)), 10); have != want {
+			return nil, rt.failed(rid, fmt.Errorf("verif: request body not intact at the target: got %s, the client sent %s", have, want))
+		}
+	}
 	switch {
 	case beh == "" || beh == "reply":
 	case strings.HasPrefix(beh, "delay:"):
@@ -726,6 +736,15 @@ type vRecorder struct {
 	hijacked bool
 }
 
+// vSum: a simple position-sensitive checksum of a body
+func vSum(b []byte) uint32 {
+	var h uint32 = 2166136261
+	for _, x := range b {
+		h = (h ^ uint32(x)) * 16777619
+	}
+	return h
+}
+
 func (s *vSim) runRequest(id string, c map[string]any) map[string]any {
 	method := vStr(c["method"])
 	if method == "" {
@@ -751,6 +770,14 @@ func (s *vSim) runRequest(id string, c map[string]any) map[string]any {
 		req.Header.Set("X-Verif-Behaviour", b)
 	}
 	req.Header.Set("X-Verif-Req", id)
+	if body := vUnhex(c["body"]); len(body) > 0 {
+		// what the target must receive: the scripted target transport compares (length and checksum)
+		req.Header.Set("X-Verif-Body", strconv.Itoa(len(body))+":"+strconv.FormatUint(uint64(vSum(body)), 10))
+		if vBool(c["chunked"]) {
+			req.ContentLength = -1
+			req.TransferEncoding = []string{"chunked"}
+		}
+	}
 	ctx, cancel := context.WithCancel(context.Background())
 	req = req.WithContext(ctx)
 	s.mu.Lock()
